@@ -373,6 +373,40 @@ func (mm *MutModel) freshDict(v ssa.Value) bool {
 				}
 				return n > 0
 			}
+			// … or of a variable of the enclosing function captured by this closure (a visitor passed to forEach that
+			// works on the result dictionary of its parent): the cell in the parent, judged the same way
+			if fv, ok := x.X.(*ssa.FreeVar); ok && x.Op == token.MUL {
+				fn := fv.Parent()
+				if fn.Parent() == nil {
+					return false
+				}
+				for i, f2 := range fn.FreeVars {
+					if f2 != fv {
+						continue
+					}
+					for _, in := range instrsOf(fn.Parent()) {
+						mc, ok := in.(*ssa.MakeClosure)
+						if !ok || mc.Fn != ssa.Value(fn) || i >= len(mc.Bindings) {
+							continue
+						}
+						al, ok := mc.Bindings[i].(*ssa.Alloc)
+						if !ok {
+							return false
+						}
+						n := 0
+						for _, r := range referrers(al) {
+							if st, ok := r.(*ssa.Store); ok && st.Addr == ssa.Value(al) {
+								n++
+								if !rec(st.Val) {
+									return false
+								}
+							}
+						}
+						return n > 0
+					}
+				}
+				return false
+			}
 		}
 		return isFresh(v)
 	}
@@ -516,22 +550,39 @@ func boolResultsAfter(in ssa.Instruction) map[int]bool {
 				continue
 			}
 			v := ret.Results[i]
-			var t, known bool
-			if k, isC := v.(*ssa.Const); isC && k.Value != nil {
-				t, known = k.Value.String() == "true", true
-			} else if tv, ok := dominatingTruths(b)[v]; ok {
-				t, known = tv, true
+			// the values the result can have on the ways from `in` to this return: a phi of the return block contributes
+			// the edges whose predecessor lies behind `in`
+			cands := []ssa.Value{v}
+			if phi, isPhi := v.(*ssa.Phi); isPhi && phi.Block() == b {
+				cands = nil
+				after := reachableFrom(in.Block(), nil)
+				for ei, e := range phi.Edges {
+					if pr := b.Preds[ei]; pr == in.Block() || after[pr] {
+						cands = append(cands, e)
+					}
+				}
 			}
-			if !known {
-				same = false
+			for _, cv := range cands {
+				var t, known bool
+				if k, isC := cv.(*ssa.Const); isC && k.Value != nil {
+					t, known = k.Value.String() == "true", true
+				} else if tv, ok := dominatingTruths(b)[cv]; ok {
+					t, known = tv, true
+				}
+				if !known {
+					same = false
+					break
+				}
+				if n > 0 && t != val {
+					same = false
+					break
+				}
+				val = t
+				n++
+			}
+			if !same {
 				break
 			}
-			if n > 0 && t != val {
-				same = false
-				break
-			}
-			val = t
-			n++
 		}
 		if same && n > 0 {
 			out[i] = val
